@@ -242,7 +242,7 @@ CONFIGS = ["full", "full_nystroem", "sparse_cholesky", "sparse_kmeans", "sparse_
            "inferred", "full+landmarks=", "full+landmarks>", "full_nystroem+landmarks"]
 
 
-def gen_case(rng, latent, est=None, cfg=None, unc=None):
+def gen_case(rng, latent, est=None, cfg=None, unc=None, rank=None):
     est = est or ["density", "density", "time", "dim"][rng.integers(4)]
     n, d = 24, 2
     X, _ = gen_points(rng, n, d, kind=["plain", "clustered"][rng.integers(2)], scale=1.0)
@@ -267,7 +267,9 @@ def gen_case(rng, latent, est=None, cfg=None, unc=None):
         gp = dict(n_landmarks=m)
     elif cfg == "sparse_nystroem":
         Xu = lm(m)
-        gp = dict(gp_type="sparse_nystroem", rank=[0.9, 0.99, 0.999, 3, 5][rng.integers(5)])
+        # (1 - 1e-9 keeps every landmark direction: the factor then has as many columns as there are landmarks, the
+        # coincidence that must not make the predictor read the rank-reduced latent as landmark Cholesky weights)
+        gp = dict(gp_type="sparse_nystroem", rank=rank if rank is not None else [0.9, 0.99, 0.999, 3, 5, 1 - 1e-9][rng.integers(6)])
     elif cfg == "fixed<":
         Xu = lm(m); gp = dict(gp_type="fixed")
     elif cfg == "fixed=":
@@ -304,6 +306,9 @@ def run(ctx, res):
     for est_, cfg_ in (("density", "full_nystroem"), ("time", "full_nystroem"), ("dim", "full_nystroem"), ("density", "full"),
                        ("density", "sparse_cholesky"), ("density", "sparse_nystroem"), ("density", "fixed=")):
         run_case(ctx, res, gen_case(rng, "fit", est=est_, cfg=cfg_, unc=True))
+    # sparse_nystroem with every landmark direction kept (seeded change C02-f), all three estimators
+    for est_ in ("dim", "density", "time"):
+        run_case(ctx, res, gen_case(rng, "fit", est=est_, cfg="sparse_nystroem", unc=False, rank=1 - 1e-9))
     i = 0
     while time.time() < t_end:
         run_case(ctx, res, gen_case(rng, "fit" if i % 6 == 5 else "arbitrary"))
